@@ -28,7 +28,7 @@ def member_lists(tier):
         ('overlap2', [S('*ab*'), S('*b*')]), ('dup2', [S('*a*'), S('*a*')]), ('case2', [S('ia'), S('a')]),
         ('icase2', [S('ia*'), S('i*b')]), ('re2', [S('?a'), S('?b')]), ('ire2', [S('i?a'), S('i?b')]),
         ('re+str', [S('?a'), S('b')]),
-        ('int2', [('i', 1), ('i', 2)]), ('cmp2', [S('>1'), S('<5')]), ('bool2', [('b', True), ('b', False)]),
+        ('int2', [('i', 1), ('i', 2)]), ('cmp2', [S('>1'), S('<5')]), ('cmp2-incl', [S('>=1'), S('<=5')]), ('cmp2-float', [S('>=0.5'), S('<=1.5')]), ('bool2', [('b', True), ('b', False)]),
         ('flt2', [('f', 1.5), S('>2.5')]), ('empty+a', [S(''), S('a')]), ('any+a', [S('*'), S('a')]),
         ('str3', [S('a*'), S('*b'), S('*c*')]), ('mix3', [S('a'), S('ib'), S('?c')]), ('int3', [('i', 1), ('i', 2), S('>=3')]),
         ('map1', [T.M((T.K('g'), S('a')))]), ('map2', [T.M((T.K('g'), S('a'))), T.M((T.K('g'), S('b*')))]),
